@@ -1049,6 +1049,15 @@ func run(c *h.Check) {
 			}
 		}
 	}
+	runLongChains(c) // longchains.go
+	if c.Mine(3) {
+		vs, evals := runBags()
+		c.Count("evaluations", int64(evals))
+		c.Count("transitions", int64(evals))
+		c.Count("traces_validated_against_impl", int64(evals))
+		c.Count("nontrivial", int64(evals))
+		report(vs, bagCase{"bags"})
+	}
 }
 
 func replay(c *h.Check, rf *h.ReplayFile) []vrt.Violation {
@@ -1077,6 +1086,14 @@ func replay(c *h.Check, rf *h.ReplayFile) []vrt.Violation {
 			vrt.MachineryFault("replay: %v", err)
 		}
 		vs, _, _ = runTyped(tc)
+	case "long-chain":
+		var lc longChain
+		if err := json.Unmarshal(rf.Ops, &lc); err != nil {
+			vrt.MachineryFault("replay: %v", err)
+		}
+		vs, _ = runLongChain(lc)
+	case "bags":
+		vs, _ = runBags()
 	default:
 		vrt.MachineryFault("replay: unknown part %q", head.Part)
 	}
@@ -1113,7 +1130,9 @@ func main() {
 		return map[string]any{
 			"rule": "non-trivial = evaluations of a stored event whose type has at least one registered upcaster (chain length >= 1); all registries are distinct by construction (distinct per-source lists or distinct global registration order)",
 			"bounds": map[string]any{"raw_searches": bounds, "max_upcasters_per_source": 2, "documents": len(documents), "setup_variants": variants,
-				"failure_positions": "each registered upcaster in turn, and none", "typed_registration_sets": len(typedSets()), "typed_handler_variants": 3},
+				"failure_positions": "each registered upcaster in turn, and none",
+				"long_chains": "linear chains of 1..70, 130 and 260 raw upcasters, events stored at the head, the middle, one step before the end and the end; no failure, and the first, a middle and the last step failing",
+				"typed_untyped_fields": "one typed upcaster whose source type has any / map[string]any / []any fields, 4 documents", "typed_registration_sets": len(typedSets()), "typed_handler_variants": 3},
 		}
 	})
 }
